@@ -304,6 +304,9 @@ pub enum Op {
     DropTree { tree: Slot },
     SendTree { tree: Slot, to: u32 },
     RecvTree { tree: Slot },
+    /// From here on this thread's reader ops use another (document,
+    /// configuration) variant: 0 is the scenario's own, k is variants[k-1].
+    Use { variant: u32 },
 }
 
 impl Op {
@@ -327,6 +330,7 @@ impl Op {
             Op::DropTree { .. } => "DropTree",
             Op::SendTree { .. } => "SendTree",
             Op::RecvTree { .. } => "RecvTree",
+            Op::Use { .. } => "Use",
         }
     }
     pub fn plan(&self) -> Option<&ReadPlan> {
@@ -398,6 +402,17 @@ pub enum SchedSpec {
     Explicit { choices: Vec<u32> },
 }
 
+/// Another (document, configuration) pair used by part of the history; a
+/// missing member means "the same as the base scenario's".  The decorator
+/// kind is always the base configuration's.
+#[derive(Serialize, Deserialize, Clone, Debug, PartialEq, Eq)]
+pub struct Variant {
+    #[serde(default)]
+    pub doc: Option<DocSpec>,
+    #[serde(default)]
+    pub config: Option<ConfigSpec>,
+}
+
 #[derive(Serialize, Deserialize, Clone, Debug, PartialEq, Eq)]
 pub struct Scenario {
     pub property: String,
@@ -411,6 +426,36 @@ pub struct Scenario {
     /// transport corruption events applied to the document when it was generated
     #[serde(default)]
     pub corrupt_events: u32,
+    /// further (document, configuration) pairs, selected by `Op::Use`
+    #[serde(default)]
+    pub variants: Vec<Variant>,
+}
+
+impl Scenario {
+    pub fn num_variants(&self) -> usize {
+        1 + self.variants.len()
+    }
+    pub fn variant_doc(&self, v: usize) -> &DocSpec {
+        if v == 0 {
+            return &self.doc;
+        }
+        self.variants
+            .get(v - 1)
+            .and_then(|x| x.doc.as_ref())
+            .unwrap_or(&self.doc)
+    }
+    pub fn variant_config(&self, v: usize) -> ConfigSpec {
+        if v == 0 {
+            return self.config.clone();
+        }
+        let mut c = self
+            .variants
+            .get(v - 1)
+            .and_then(|x| x.config.clone())
+            .unwrap_or_else(|| self.config.clone());
+        c.decorator = self.config.decorator.clone();
+        c
+    }
 }
 
 #[derive(Serialize, Deserialize, Clone, Debug, PartialEq, Eq)]
